@@ -180,6 +180,10 @@ func (vc *VC) recordCallSyms(key string, sig *types.Signature, res []Term) {
 	if _, ok := vc.callSyms[key]; ok {
 		return // first call only
 	}
+	if vc.callReach == nil {
+		vc.callReach = map[string]Term{}
+	}
+	vc.callReach[key] = vc.curReach
 	vc.callSyms[key] = res
 	var cts []CT
 	for i := 0; i < sig.Results().Len(); i++ {
